@@ -211,18 +211,18 @@ pub fn readdir<const W: usize, const NENT: usize, const NL: usize, const SZ: u32
         assert!(l.a[0] as u32 == get32(&snap, K_READ_IN__SIZE) && l.a[1] == get64(&snap, K_READ_IN__OFFSET), "[C02] READDIR size/offset");
     }
     if p == 3 && !trunc && fits_buffer && W >= 16 && !dev_refuses {
-        assert!(emitted(), "[C03] the answer is sent");
+        assert!(emitted(), "[C03][C16] the answer is sent");
         let r = reply();
         if s.err != 0 {
-            assert!(reply_error() == -expected_errno(s.err) && reply_len() == 16, "[C03] READDIR error as negated errno");
+            assert!(reply_error() == -expected_errno(s.err) && reply_len() == 16, "[C03][C16] READDIR error as negated errno");
         } else {
             let delivered = log().a[2] as usize;
-            assert!(reply_error() == 0, "[C03] READDIR success");
-            assert!(reply_len() == 16 + delivered * total, "[C03] directory reply holds only whole 8-byte-aligned entries");
-            assert!(reply_len() - 16 <= size, "[C03] directory reply never exceeds the requested size");
+            assert!(reply_error() == 0, "[C03][C16] READDIR success");
+            assert!(reply_len() == 16 + delivered * total, "[C03][C16] directory reply holds only whole 8-byte-aligned entries");
+            assert!(reply_len() - 16 <= size, "[C03][C16] directory reply never exceeds the requested size");
             // an entry is delivered iff it still fits the requested size
             let want = if total == 0 { 0 } else { size / total };
-            assert!(delivered == if want < NENT { want } else { NENT }, "[C03] entries are delivered while they fit");
+            assert!(delivered == if want < NENT { want } else { NENT }, "[C03][C16] entries are delivered while they fit");
             // constant-bound loops (NENT, NL are instance constants)
             let mut k = 0;
             while k < NENT {
@@ -232,15 +232,15 @@ pub fn readdir<const W: usize, const NENT: usize, const NL: usize, const SZ: u32
                         check_entry(r, base, &s.entry);
                         base += K_ENTRY_OUT_SIZE;
                     }
-                    assert!(get64(r, base + K_DIRENT__INO) == s.ent_ino && get64(r, base + K_DIRENT__OFF) == s.ent_off, "[C03] dirent ino/off");
-                    assert!(get32(r, base + K_DIRENT__NAMELEN) as usize == NL && get32(r, base + K_DIRENT__TYPE) == s.ent_type, "[C03] dirent namelen/type");
+                    assert!(get64(r, base + K_DIRENT__INO) == s.ent_ino && get64(r, base + K_DIRENT__OFF) == s.ent_off, "[C03][C16] dirent ino/off");
+                    assert!(get32(r, base + K_DIRENT__NAMELEN) as usize == NL && get32(r, base + K_DIRENT__TYPE) == s.ent_type, "[C03][C16] dirent namelen/type");
                     let mut i = 0;
                     while i < NL {
-                        assert!(r[base + K_DIRENT_SIZE + i] == kn_bytes()[i], "[C03] dirent name bytes");
+                        assert!(r[base + K_DIRENT_SIZE + i] == kn_bytes()[i], "[C03][C16] dirent name bytes");
                         i += 1;
                     }
                     while i < padded - K_DIRENT_SIZE {
-                        assert!(r[base + K_DIRENT_SIZE + i] == 0, "[C03] dirent padding is zero");
+                        assert!(r[base + K_DIRENT_SIZE + i] == 0, "[C03][C16] dirent padding is zero");
                         i += 1;
                     }
                 }
@@ -322,14 +322,14 @@ pub fn dirent_step<const K: usize, const NL: usize>(plus: bool) {
     let room = (max as usize).saturating_sub(before);
     match r {
         Ok(0) => {
-            assert!(room < total, "[C03] an entry is skipped only if it does not fit the requested size");
-            assert!(after == before, "[C03] a skipped entry writes nothing");
+            assert!(room < total, "[C03][C16] an entry is skipped only if it does not fit the requested size");
+            assert!(after == before, "[C03][C16] a skipped entry writes nothing");
         }
         Ok(n) => {
-            assert!(room >= total, "[C03] an entry is written only if it fits the requested size");
-            assert!(n == total && after == before + total, "[C03] a written entry occupies exactly its padded length");
-            assert!(after <= max as usize, "[C03] the directory reply never exceeds the requested size");
-            assert!(after % 8 == 0, "[C03] entries are 8-byte aligned");
+            assert!(room >= total, "[C03][C16] an entry is written only if it fits the requested size");
+            assert!(n == total && after == before + total, "[C03][C16] a written entry occupies exactly its padded length");
+            assert!(after <= max as usize, "[C03][C16] the directory reply never exceeds the requested size");
+            assert!(after % 8 == 0, "[C03][C16] entries are 8-byte aligned");
             // layout of the entry just written
             let b = unsafe { std::slice::from_raw_parts(wbuf.as_ptr().add(16 + before), total) };
             let mut base = 0;
@@ -337,23 +337,23 @@ pub fn dirent_step<const K: usize, const NL: usize>(plus: bool) {
                 check_entry(b, 0, &e);
                 base = K_ENTRY_OUT_SIZE;
             }
-            assert!(get64(b, base + K_DIRENT__INO) == ino && get64(b, base + K_DIRENT__OFF) == off, "[C03] dirent ino/off");
-            assert!(get32(b, base + K_DIRENT__NAMELEN) as usize == NL && get32(b, base + K_DIRENT__TYPE) == ty, "[C03] dirent namelen/type");
+            assert!(get64(b, base + K_DIRENT__INO) == ino && get64(b, base + K_DIRENT__OFF) == off, "[C03][C16] dirent ino/off");
+            assert!(get32(b, base + K_DIRENT__NAMELEN) as usize == NL && get32(b, base + K_DIRENT__TYPE) == ty, "[C03][C16] dirent namelen/type");
             let mut i = 0;
             while i < NL {
-                assert!(b[base + K_DIRENT_SIZE + i] == name[i], "[C03] dirent name bytes");
+                assert!(b[base + K_DIRENT_SIZE + i] == name[i], "[C03][C16] dirent name bytes");
                 i += 1;
             }
             while i < padded - K_DIRENT_SIZE {
-                assert!(b[base + K_DIRENT_SIZE + i] == 0, "[C03] dirent padding is zero");
+                assert!(b[base + K_DIRENT_SIZE + i] == 0, "[C03][C16] dirent padding is zero");
                 i += 1;
             }
         }
         Err(_) => {
-            assert!(false, "[C03] add_dirent does not fail while the cursor has room");
+            assert!(false, "[C03][C16] add_dirent does not fail while the cursor has room");
         }
     }
-    unsafe { assert!(ghost::DEV.events == 0, "[C03] filling the cursor emits nothing") };
+    unsafe { assert!(ghost::DEV.events == 0, "[C03][C16] filling the cursor emits nothing") };
     kani::cover!(matches!(r, Ok(0)), "skipped");
     kani::cover!(matches!(r, Ok(n) if n > 0), "written");
 }
